@@ -139,6 +139,17 @@ theorem Elitism.select_mem (c : Cfg α) (s : ElState α) (picks : List Nat) {x :
   · exact filterMap_get_mem _ _ hx
 
 /-- … the best one first -/
+theorem Elitism.select_nil_or_head (c : Cfg α) (s : ElState α) (picks : List Nat) :
+    Elitism.select c s picks = [] ∨ (Elitism.select c s picks).head? = s.inds.head? := by
+  unfold Elitism.select
+  cases hi : s.inds with
+  | nil => simp
+  | cons a as =>
+    simp only [List.isEmpty_cons, Bool.false_eq_true, if_false]
+    cases hk : Elitism.selectionSize c s with
+    | zero => simp
+    | succ k => right; simp [List.take_succ_cons]
+
 theorem Elitism.select_head? (c : Cfg α) (s : ElState α) (picks : List Nat) (hsel : 1 ≤ c.selSize) :
     (Elitism.select c s picks).head? = s.inds.head? := by
   unfold Elitism.select
